@@ -23,6 +23,7 @@ both functions have the same guarded normal form, that is
 Nothing is executed.  The comparison is purely on normal forms; no solver, no sampling.
 """
 import ast
+import os
 import copy
 
 from . import summ, nf
@@ -224,6 +225,7 @@ def _region_equivalent(ra, rb, fa=None, fb=None):
 
 def blocks_equivalent(sa_, sb_, depth=0, ta=(), tb=()):
     """Statement lists; ta / tb: what can run after them in their functions."""
+    summ.check_deadline()
     sa_, sb_ = list(sa_), list(sb_)
     ta, tb = list(ta), list(tb)
     # identical statements front and back need no proof
@@ -395,8 +397,25 @@ def functions_loosely_equivalent(fa, fb):
         LOOSE[0] = False
 
 
+PROOF_BUDGET_S = float(os.environ.get("VERIF_PROOF_BUDGET", "40"))
+
+
 def functions_equivalent(fa, fb):
-    """(equivalent, reason) for two FunctionDef nodes (current, baseline)."""
+    """(equivalent, reason) for two FunctionDef nodes (current, baseline).  One attempt has a wall-clock budget: a function
+    that cannot be proven equivalent within it is simply not proven (and is then analysed as it is written)."""
+    import time
+    outer = summ.DEADLINE[0]
+    if outer is None:       # (a caller that makes several attempts on one function sets one budget for all of them)
+        summ.DEADLINE[0] = time.time() + PROOF_BUDGET_S
+    try:
+        return _functions_equivalent(fa, fb)
+    except summ.Unsupported as e:
+        return False, "not proven equivalent (%s)" % e
+    finally:
+        summ.DEADLINE[0] = outer
+
+
+def _functions_equivalent(fa, fb):
     if type(fa) is not type(fb):
         return False, "different kind of definition"
     if _dump(fa.args) != _dump(fb.args):
